@@ -9,16 +9,13 @@ metric), so "same position" is stated in the coordinates of the ORIGINAL lattice
                       operations of the new setting are the conjugates of the old ones modulo the lattice.
 """
 import itertools
-import time
 from fractions import Fraction
 
-import numpy as np
 import z3
 
-from pyvc import cert
 from pyvc.api import Contract, NDArr, Obj, conj, farr, iarr, real_matrix, reals, source
-from pyvc.libmodels import ufun, det3
-from pyvc.values import PyRaise, to_real, z
+from pyvc.libmodels import ufun
+from pyvc.values import to_real, z
 
 from contracts import c13_native as N
 from contracts import c13_trigonal as T
@@ -117,6 +114,10 @@ def mentions(term, names):
 def build(ctx):
     ctx.level = "other"
     thorough = ctx.tier == "thorough"
+    # every obligation of this property that holds is discharged in < 2 s; cap the per-obligation solver budgets so that a mutated tree ends in refuted/unknown quickly
+    from pyvc import solve
+    solve.Z3_TIMEOUT_MS = min(solve.Z3_TIMEOUT_MS, 30000 if thorough else 20000)
+    solve.CVC5_TIMEOUT_S = min(solve.CVC5_TIMEOUT_S, 30 if thorough else 20)
     ctx.assumptions += [
         "floats are reals (rounding is only covered by the bounded run-time contracts)",
         "cos^2+sin^2 = 1, sqrt(x)^2 = x for x >= 0; numpy.linalg.inv returns the two-sided inverse of a non-singular matrix; numpy dot/vstack/hstack/arange, "
@@ -137,9 +138,11 @@ def build(ctx):
         for size in sizes:
             supercell_obligations(ctx, env, fname, size)
     supercell_obligations(ctx, env, "as_P1", (1, 1, 1))
-    ctx.ground("crystal.Crystal.as_P1_supercell/sizes/complete", set(sizes) == set(itertools.product((1, 2, 3), repeat=3)) or not thorough, tag="G",
-               clause="thorough tier: all 27 supercell sizes of the statement's quantifier are enumerated" if thorough else
-               "quick tier: sizes (1,1,1), (2,1,1), (1,2,3), (3,3,3) (the complete 27 are run in the thorough tier)", detail={"sizes": len(sizes)})
+    if thorough:
+        ctx.ground("crystal.Crystal.as_P1_supercell/sizes/complete", set(sizes) == set(itertools.product((1, 2, 3), repeat=3)), tag="G",
+                   clause="all 27 supercell sizes of the statement's quantifier (1..3 per direction) are enumerated", detail={"sizes": len(sizes)})
+    else:
+        ctx.notes.append("quick tier: supercell sizes (1,1,1), (2,1,1), (1,2,3), (3,3,3); the complete set of 27 sizes is run in the thorough tier")
     lattice_lemmas(ctx)
     asym_unit_order(ctx, env)
     density_obligations(ctx, env)
@@ -148,21 +151,28 @@ def build(ctx):
 
 
 EXPLANATION = (
-    "SUPERCELL / P1.  P (real source of as_P1, as_P1_supercell, to_translational_symmetry executed on a symbolic crystal whose unit cell holds two molecules (2 atoms + 1 atom, symbolic "
-    "positions and atomic numbers), for every size of the tier): rows — row k of the new asymmetric unit satisfies new_frac . diag(size) - (q,r,s) == old fractional position of atom "
-    "(molecule j, atom i), for the k-th triple of product(range(u),range(v),range(w)) x molecules x atoms, with the same atomic number; count == u v w n_uc (every (q,r,s), molecule) exactly once; "
-    "the new space group is P1; cell — new lengths == (u a, v b, w c), angles unchanged, and for a cell in standard orientation new direct == diag(size).D, new inverse . diag(size) == V "
-    "(algebraic certificates); the rows are proved from 'new inverse . diag(size) == V' + D.V == 1 only, i.e. for every orientation in which that lemma holds.  any_cell_orientation — the same lemma for a "
-    "cell given by arbitrary vectors (hypothesis: lengths/angles are the row norms/angles): certificate if one exists, otherwise a counter-model is searched on a rational instance (rotated "
-    "orthorhombic cell) and replayed natively.  L: every integer is q + s k with 0 <= q < s (completeness of the residues), volume scales by u v w.  P density: the real `density` returns "
-    "sum(mass)/volume/0.6022 of the unit-cell elements; for the supercell crystal it equals the original's (mass and volume both scale by u v w).  "
-    "TRIGONAL.  P (real source of choose_trigonal_lattice on a symbolic crystal, cell = arbitrary non-singular D): D' == T.D with T read off the run, f'.D' == f.D (Cartesian positions unchanged), "
-    "new space group == SpaceGroup(same number, choice), H->R->H and R->H->R restore D and f, other groups raise ValueError, same choice is a no-op, UnitCell.as_rhombohedral/as_hexagonal apply the same T.  "
-    "G (complete: seven groups, exact rationals): T_RH . T_HR == 1, |det| == 3 and 1/3, and the tabulated operations of the target setting are exactly the conjugates of the source setting's operations modulo "
-    "the lattice (each R operation hit by exactly three H operations) with the T extracted from the real source.  "
-    "B (not counted): atom-by-atom coincidence modulo the lattice in both directions, counts, density on acetic_acid, r3c_example, generated molecular crystals in several space groups, cells given by "
-    "vectors in rotated orientation, all sizes of the tier; trigonal switch on the seven groups x seeded a, c, asymmetric units with expanded unit cells compared atom by atom and the round trip.  "
-    "Level 'other': the partition contract of unit_cell_molecules (C04) and the final composition are not machine-checked."
+    "SUPERCELL / P1.  P — the real source of as_P1, as_P1_supercell and to_translational_symmetry is executed on a symbolic crystal (cell: arbitrary non-singular D with inverse V; unit cell = two "
+    "molecules, 2 atoms + 1 atom, symbolic Cartesian positions p and atomic numbers; unit_cell_molecules under a modular contract) for every size of the tier: space_group_P1; cell_parameters "
+    "(new lengths == (u a, v b, w c), same angles: the metric of the sub-lattice diag(u,v,w).D); count (== u v w n_uc, positions and numbers of equal length); enumeration (each row is identified by "
+    "its atomic-number symbol and an integer cell offset read off an exact rational instance; the rows are a bijection onto atoms x residues mod (u,v,w), any enumeration order accepted); rows "
+    "(for that atom and offset, proved for all inputs: same atomic number and new_frac . diag(size) - (q,r,s) == p . V, i.e. the atom coincides with the old one modulo the original lattice; proved from "
+    "D.V == 1 and, if the code converts with the NEW cell's inverse, from the lemma 'new inverse . diag(size) == V'); cell/standard (that lemma and new direct == diag(size).D for cells in standard "
+    "orientation: certificates over the closed forms of the real set_lengths_and_angles); any_cell_orientation (the same lemma for a cell given by arbitrary vectors whose lengths/angles are the row "
+    "norms/angles: instance-guided counter-model search on a rotated orthorhombic cell, certificate/SMT otherwise; when the code does not use the new inverse this is a dataflow fact, tag F).  "
+    "L residues: every integer is q + s k with 0 <= q < s, so every lattice image of the original crystal is one of the enumerated cells modulo the supercell lattice.  P density/formula: the real "
+    "`density` == sum(mass of unit-cell elements)/volume/0.6022 (no stored 'density' property; a user-stored value is returned as is and is outside the statement); P volume ratio == u v w; "
+    "P density invariant under as_P1_supercell (unit-cell contents of a P1 crystal = its asymmetric unit, C01).  P AsymmetricUnit.__init__ keeps row order.  "
+    "TRIGONAL.  P — choose_trigonal_lattice on a symbolic crystal of group 148 (cell = arbitrary non-singular D, two sites f): direct' == T.D with the rational T read off the run; "
+    "f'.direct' == f.direct (explicit certificate from inverse'.direct' == 1); new space group == SpaceGroup(same number, choice); memo dropped; there and back restores direct (identity), the "
+    "space group, and the coordinates (second-step certificate + cancellation lemma g.D == f.D, D.V == 1 |- g == f); other group numbers raise ValueError, the same choice is a no-op, all seven "
+    "groups accepted; UnitCell.as_rhombohedral/as_hexagonal: guard and the same T; side conditions of UnitCell(vectors) (non-singular, non-zero rows) by exact determinant identities + lemma "
+    "nonzero_row.  G (complete, exact rationals, T taken from the source run): T_(R->H).T_(H->R) == 1, |det| == 1/3 and 3 (volume/count ratio), and for each of the seven groups the tabulated H "
+    "operations re-expressed in the basis T.D are exactly the tabulated R operations modulo the lattice, each three times, and back.  "
+    "B (never counted): the statement as a run-time contract on real crystals — every new atom coincides with exactly one old atom of the same element modulo the ORIGINAL lattice, every (old atom, "
+    "cell residue) exactly once, count/volume/cell parameters/density — on acetic_acid.cif, r3c_example.cif, seeded molecular crystals in 14 settings (triclinic..cubic, both trigonal axes) with the "
+    "cell in standard orientation and with the cell given by rotated vectors, and trigonal crystals after a switch; trigonal switch on the seven groups x both directions: expanded unit cells "
+    "compared atom by atom modulo the primitive lattice (3 hexagonal-cell atoms per rhombohedral-cell atom), density, basis of the same lattice, round trip.  "
+    "Level 'other': the partition contract of unit_cell_molecules (C04), float rounding, and the final composition of the clauses into 'same infinite arrangement' are not machine-checked."
 )
 
 
@@ -251,16 +261,16 @@ def supercell_obligations(ctx, env, fname, size):
             return new
         res = env.I.explore(thunk, pre=PRE + INV)
         if len(res) != 1 or res[0].kind != "return" or not isinstance(res[0].value, Obj):
-            ctx.prove(lab + "returns", PRE + INV, z3.BoolVal(False), clause=f"{fname}({size}) returns a crystal on every valid input", replay=replay_rows, fn=f_src)
+            ctx.prove(lab + "returns", [], z3.BoolVal(False), clause=f"{fname}({size}) returns a crystal on every valid input", replay=replay_rows, fn=f_src)
             return
         r = res[0]
         new, H = r.value, r.pc
         au, sc, sgp = new.fields.get("asymmetric_unit"), new.fields.get("unit_cell"), new.fields.get("space_group")
         # ---- space group P1, cell lengths and angles ---------------------------------------------------------------
         ok_sg = isinstance(sgp, Obj) and sgp.fields.get("international_tables_number") == 1 and sgp.fields.get("choice") in ("", None)
-        ctx.prove(lab + "space_group_P1", H, z3.BoolVal(bool(ok_sg)), clause="the result is in space group number 1", replay=replay_rows, fn=f_src)
+        ctx.prove(lab + "space_group_P1", [], z3.BoolVal(bool(ok_sg)), clause="the result is in space group number 1", replay=replay_rows, fn=f_src)
         if not (isinstance(au, Obj) and isinstance(sc, Obj) and isinstance(au.fields.get("positions"), NDArr)):
-            ctx.prove(lab + "shape", H, z3.BoolVal(False), clause="the result has a unit cell and an asymmetric unit with an (N, 3) position array", replay=replay_rows, fn=f_src)
+            ctx.prove(lab + "shape", [], z3.BoolVal(False), clause="the result has a unit cell and an asymmetric unit with an (N, 3) position array", replay=replay_rows, fn=f_src)
             return
         scL, scA = list(_flat(sc.fields["lengths"])), list(_flat(sc.fields["angles"]))
         ienv = standard_instance_env(env)
@@ -271,7 +281,7 @@ def supercell_obligations(ctx, env, fname, size):
         cells = list(itertools.product(range(size[0]), range(size[1]), range(size[2])))
         n_uc = sum(MOL_SIZES)
         n_expected = len(cells) * n_uc
-        ctx.prove(lab + "count", H, z3.BoolVal(P.shape == (n_expected, 3) and Z.shape == (n_expected,)),
+        ctx.prove(lab + "count", [], z3.BoolVal(P.shape == (n_expected, 3) and Z.shape == (n_expected,)),
                   clause=f"atom count == u v w n_uc == {len(cells)} x {n_uc} (cell-volume ratio x unit-cell contents), positions and atomic numbers stacked to the same length",
                   replay=replay_rows, fn=f_src)
         if P.shape != (n_expected, 3) or Z.shape != (n_expected,):
@@ -299,7 +309,7 @@ def supercell_obligations(ctx, env, fname, size):
             key = (j, i) + tuple(n[x] % size[x] for x in range(3))
             seen[key] = seen.get(key, 0) + 1
         complete = ident_ok and len(seen) == n_expected and all(v == 1 for v in seen.values())
-        ctx.prove(lab + "enumeration", H, z3.BoolVal(bool(complete)), clause="every atom of the unit cell appears once for every residue (q,r,s) modulo (u,v,w): the rows are a bijection onto "
+        ctx.prove(lab + "enumeration", [], z3.BoolVal(bool(complete)), clause="every atom of the unit cell appears once for every residue (q,r,s) modulo (u,v,w): the rows are a bijection onto "
                   "(atoms of the unit cell) x (cells of the supercell); every row carries the atomic number of one of the unit-cell atoms", replay=replay_rows, fn=f_src)
         if not complete:
             return          # the rows are not a re-expression of the unit-cell contents: nothing further to state about them
@@ -377,9 +387,8 @@ def _flat(v):
 def lattice_lemmas(ctx):
     n, q, k = z3.Int("n"), z3.Int("q"), z3.Int("k")
     for s in (1, 2, 3):
-        r = ctx.prove(f"lemma/residues/{s}", [], z3.And(n - s * (n / s) >= 0, n - s * (n / s) < s), clause=f"every integer n is q + {s} k with 0 <= q < {s}: a lattice translation of the original "
+        ctx.prove(f"lemma/residues/{s}", [], z3.And(n - s * (n / s) >= 0, n - s * (n / s) < s), clause=f"every integer n is q + {s} k with 0 <= q < {s}: a lattice translation of the original "
                       "crystal is a translation by one of the enumerated cells (q) modulo the supercell lattice; distinct q are distinct modulo it", tag="L")
-    u, v, w, vol = z3.Real("u"), z3.Real("v"), z3.Real("w"), z3.Real("vol")
 
 
 def asym_unit_order(ctx, env):
@@ -419,18 +428,25 @@ def density_obligations(ctx, env):
     for k, zz in enumerate(zs):
         ienv[f"element_mass({zz})"] = Fraction(12 + 5 * k, 1) + Fraction(1, 100)
         mfacts.append(MASS(zz) == z(to_real(ienv[f"element_mass({zz})"])))
+    az = [z3.Int("asym_z0")]                 # the asymmetric unit of the original crystal holds a different atom list than its unit cell
+    ienv[f"element_mass({az[0]})"] = Fraction(1)
+    mfacts.append(MASS(az[0]) == 1)
     sfacts = standard_instance_facts() + mfacts
+    AUc = env.I.class_of(source.load_module(AU), "AsymmetricUnit")
+
+    def original(props):
+        au = Obj(AUc, {"atomic_numbers": iarr(az), "positions": farr(real_matrix("af", 1, 3)), "elements": None, "labels": None, "properties": {}})
+        return Obj(env.CRc, {"unit_cell": env.general_cell(), "space_group": None, "asymmetric_unit": au, "properties": props, "_c13_original": True})
 
     def ob_formula():
         env.uca_elements = lambda self_: iarr(zs)
 
         def thunk(I2, a_, kw):
-            uc = env.general_cell()
-            cr = Obj(env.CRc, {"unit_cell": uc, "space_group": None, "asymmetric_unit": None, "properties": {}})
-            return I2.getattr(cr, "density"), I2.call(I2.getattr(uc, "volume"), [])
+            cr = original({})
+            return I2.getattr(cr, "density"), I2.call(I2.getattr(cr.fields["unit_cell"], "volume"), [])
         res = env.I.explore(thunk, pre=PRE)
         if len(res) != 1 or res[0].kind != "return":
-            ctx.prove("crystal.Crystal.density/ensures/formula", PRE, z3.BoolVal(False), clause="density is computed (no exception) from the unit-cell contents and the cell volume", replay=replay, fn=f_den)
+            ctx.prove("crystal.Crystal.density/ensures/formula", [], z3.BoolVal(False), clause="density is computed (no exception) from the unit-cell contents and the cell volume", replay=replay, fn=f_den)
             return
         dens, vol = res[0].value
         prove_i(ctx, "crystal.Crystal.density/ensures/formula", res[0].pc, z3.And(vol > 0, z(dens) * vol * z3.RealVal("0.6022") == sum(MASS(zz) for zz in zs)), ienv, sfacts,
@@ -445,19 +461,21 @@ def density_obligations(ctx, env):
         def ob_inv(size=size, stag=stag):
             # unit-cell contents: of the original crystal = atoms of its molecules (C04 contract); of a P1 crystal = its asymmetric unit (C01)
             def elements(self_):
-                au = self_.fields.get("asymmetric_unit")
-                return au.fields["atomic_numbers"] if isinstance(au, Obj) else iarr(zs)
+                return iarr(zs) if self_.fields.get("_c13_original") else self_.fields["asymmetric_unit"].fields["atomic_numbers"]
             env.uca_elements = elements
 
             def thunk(I2, a_, kw):
-                cr = Obj(env.CRc, {"unit_cell": env.general_cell(), "space_group": None, "asymmetric_unit": None, "properties": {"titl": "T"}})
+                cr = original({"titl": "T"})
                 new = I2.call(I2.getattr(cr, "as_P1_supercell"), [size])
-                return I2.getattr(cr, "density"), I2.getattr(new, "density")
+                return (I2.getattr(cr, "density"), I2.getattr(new, "density"), I2.call(I2.getattr(cr.fields["unit_cell"], "volume"), []),
+                        I2.call(I2.getattr(new.fields["unit_cell"], "volume"), []))
             res = env.I.explore(thunk, pre=PRE + INV)
             if len(res) != 1 or res[0].kind != "return":
-                ctx.prove(f"crystal.Crystal.density/ensures/supercell_invariant/{stag}", PRE + INV, z3.BoolVal(False), clause="density of the supercell crystal is computed", replay=replay, fn=f_den)
+                ctx.prove(f"crystal.Crystal.density/ensures/supercell_invariant/{stag}", [], z3.BoolVal(False), clause="density of the supercell crystal is computed", replay=replay, fn=f_den)
                 return
-            d0, d1 = res[0].value
+            d0, d1, v0, v1 = res[0].value
+            prove_i(ctx, f"unit_cell.UnitCell.volume/ensures/supercell_ratio/{stag}", res[0].pc, z(v1) == size[0] * size[1] * size[2] * z(v0), ienv, sfacts,
+                    clause=f"volume(supercell {size}) == u v w volume(cell): the atom count ratio (rows/count) equals the cell-volume ratio", algebra=True, replay=replay, fn=ctx.fn(UCM, "UnitCell.volume"))
             prove_i(ctx, f"crystal.Crystal.density/ensures/supercell_invariant/{stag}", res[0].pc, z(d0) == z(d1), ienv, sfacts,
                     clause=f"density(as_P1_supercell({size})) == density(original): mass and volume both scale by u v w", algebra=True, replay=replay, fn=f_den)
         ctx.attempt(f"crystal.Crystal.density/ensures/supercell_invariant/{stag}", ob_inv, replay=replay, fn=f_den)
